@@ -381,6 +381,10 @@ pub fn registry() -> Vec<Entry> {
         entry!("Sequence<string>", Vec<String>),
         entry!("Sequence<varint32>", Vec<VarI32>),
         entry!("Sequence<Sequence<uint16>>", Vec<Vec<u16>>),
+        entry!("Sequence<uint64>", Vec<u64>),
+        entry!("Sequence<float64>", Vec<f64>),
+        entry!("HashMap<uint32,uint64>", HashMap<u32, u64>),
+        entry!("BTreeMap<int64,float32>", BTreeMap<i64, f32>),
         entry!("HashMap<uint8,uint8>", HashMap<u8, u8>),
         entry!("HashMap<string,int32>", HashMap<String, i32>),
         entry!("HashMap<varuint32,Sequence<string>>", HashMap<VarU32, Vec<String>>),
